@@ -24,7 +24,8 @@ CONSTANTS
   SplitOnlyAtEnqueue = FALSE
   DropOnClose = FALSE
   WriteErrorEndsReader = FALSE
+  AckOvertakes = FALSE
   ForwardInitWin = FALSE
   WithSettings = FALSE
-INVARIANTS ReaderAlive NotStarved WithinGrant WithinMaxFrame CreditReturned NoEligibleQueued LedgerAgrees PrefixFidelity Conserved HpackInOrder
+INVARIANTS WithinGrantAsReceiverCountsIt ReaderAlive NotStarved WithinGrant WithinMaxFrame CreditReturned NoEligibleQueued LedgerAgrees PrefixFidelity Conserved HpackInOrder
 CHECK_DEADLOCK FALSE
